@@ -9,8 +9,8 @@ PROPERTY_RULES = {
     "C04": ["r_a8", "r_e1", "r_a6", "r_a2", "r_b1", "r_o3", "r_a4", "r_a17", "r_a18", "r_a21", "r_a23"],
     "C05": ["r_b1", "r_o3", "r_a2", "r_a12"],
     "C06": ["r_b1", "r_o3", "r_a2"],
-    "C07": ["r_a12", "r_a13", "r_a2", "r_a9", "r_a11", "r_a8"],
-    "C08": ["r_a11", "r_o3", "r_a2", "r_a4", "r_a8", "r_a12", "r_e2", "r_a15", "r_a22"],
+    "C07": ["r_a12", "r_a13", "r_a2", "r_a9", "r_a11", "r_a8", "r_a25"],
+    "C08": ["r_a11", "r_o3", "r_a2", "r_a4", "r_a8", "r_a12", "r_e2", "r_a15", "r_a22", "r_a25"],
     "C09": ["r_c4", "r_c3", "r_c1", "r_c5", "r_c7", "r_c8", "r_c9"],
     "C10": ["r_c2", "r_c1", "r_e1", "r_c5", "r_c7", "r_c8", "r_c4", "r_c3", "r_c9"],
     "C11": ["r_c2", "r_c1", "r_a6", "r_c5", "r_c4", "r_e1", "r_a8", "r_a9", "r_a16", "r_a21", "r_c9", "r_a23", "r_c8"],
@@ -20,7 +20,7 @@ PROPERTY_RULES = {
     "C15": ["r_d2", "r_d3"],
     "C16": ["r_e1", "r_e2", "r_e5", "r_b1", "r_o3", "r_a2", "r_a9", "r_e6"],
     "C17": ["r_c6", "r_a3", "r_c5", "r_a14", "r_a6", "r_a16", "r_u1"],
-    "C18": ["r_a15", "r_a2", "r_a12", "r_a22", "r_a24"],
+    "C18": ["r_a15", "r_a2", "r_a12", "r_a22", "r_a24", "r_a25"],
 }
 
 # build configurations analysed in the quick tier (the thorough tier analyses K1..K6 and diffs the verdict tables):
@@ -57,12 +57,12 @@ CLAUSES = {
            "the reclaiming paths take the allocation over only behind an Acquire uniqueness test on a count that is kept by atomic read-modify-writes (A2, B1, O3); allocation extents are recomputed by one formula, also through rebuild helpers judged at their callers (A4); the vec-position bits of the data word agree with the pointer (A17); every function that stores to len / cap leaves len <= cap on every path, and every true-returning path of the reservation helper ends with len + n <= cap (entailment over the state at the end of the path: A18, A8 numeric promise); no raw pointer into a buffer is used after a call that may move or free that buffer (A21: reserve / growing Vec calls / drops between obtaining a pointer and writing through it); one raw extent is assembled from one state of its owner (A23: a current pointer is never paired with a length / capacity / offset read before the owner changed)",
     "C07": "no byte-buffer allocation and no byte copy is reachable from any zero-copy operation (vtable dispatch expanded), apart from verified exempt "
            "edges; clone returns the (ptr, len) it was given; slice/slice_ref re-base by exactly the range start; empty split_off/split_to "
-           "results are built at self.ptr + at / self.ptr",
+           "results are built at self.ptr + at / self.ptr; truncate / clear / set_len / advance never replace or release the handle they narrow, except under an established promotable vtable (A25)",
     "C08": "is_unique slot functions return constant false exactly for families whose into_mut can never hand the memory over, `count == 1` (true on the "
-           "unshared branch) otherwise; try_into_mut is exactly is_unique ? Ok(into) : Err(self); every take-over re-validates uniqueness with Acquire; the reclaim helper's contract (A8), no copy on the unique conversion path (A12), parity siblings (E2); "
+           "unshared branch) otherwise; try_into_mut is exactly is_unique ? Ok(into) : Err(self); every take-over re-validates uniqueness with Acquire; the reclaim helper's contract (A8), no copy on the unique conversion path (A12), parity siblings (E2); the in-place narrowing methods keep the handle attached to its storage, so a sole owner that truncated / cleared its handle still converts back to the same memory (A25); "
            "for an empty BytesMut that is alone on its allocation every path of the reservation helper that returns false or reaches an allocation is excluded when "
            "n <= allocation size (A15, linear-inequality domain)",
-    "C18": "Structural clauses, not the quantitative bound. (0) Every function that receives &mut BytesMut gets a new byte buffer only through the reservation helper (A22, call graph cut at the helper), "
+    "C18": "Structural clauses, not the quantitative bound. (-1) clear / truncate / set_len / advance narrow the handle in place and never replace or release it (A25: a `clear` that stores a fresh handle makes every refill allocate). (0) Every function that receives &mut BytesMut gets a new byte buffer only through the reservation helper (A22, call graph cut at the helper), "
            "and inside the helper a sole owner never reaches an exact-size allocation: its own buffer grows through Vec::reserve only (A15 'amortised' mode) - so that the number of allocations cannot grow with the history; "
            "the crate's own appending paths ask `reserve` for exactly the bytes they then commit (A24: n == k for advance_mut(k), len + n == L for set_len(L)), so a refill of a partly filled buffer never requests room it does not need. (1) A sole owner whose consumed prefix is at least as long as its live bytes (off >= len - the state a recycling "
            "loop is in whenever its buffer runs out after most of it was consumed) and whose allocation can hold len + n reserves without allocating, and try_reclaim(n) is true "
@@ -122,12 +122,12 @@ TECHNIQUE = {
     "C15": "finite-domain (0..=255) value-set propagation through the byte comparisons in MIR joined with format templates from the expanded AST; provenance flow for serde",
     "C01": "signature/impl-table scan of Bytes (effect property) + dominance rules for byte moves and re-basing over MIR provenance trees + token accounting; abstract interpretation over the state at the end of each CFG path in a linear-inequality domain (len <= cap preserved, returned Vec length exact, length grows only over written bytes); upper-bound analysis of the tagged data word",
     "C04": "per-write justification rules over MIR provenance trees and dominating guards (A8), path enumeration of the reservation helper, arithmetic taint (E1); entailment of reserve's promise and of len <= cap over the state at the end of every path (stores and Vec effects applied) in a linear-inequality domain with own Fourier-Motzkin emptiness test; forward gen/kill dataflow of raw-pointer provenance against buffer-moving calls (A21)",
-    "C07": "effect reachability over the crate call graph with vtable slots expanded to all bound functions; exemptions verified by dominating guards",
+    "C07": "effect reachability over the crate call graph with vtable slots expanded to all bound functions; exemptions verified by dominating guards; replacement-event reachability for the narrowing methods with dominating vtable-identity guards (A25)",
     "C08": "return-value flow of the is_unique slot functions cross-checked against the take-over paths of into_mut (path summaries) + dominating-guard analysis; "
            "abstract interpretation of the reservation helper in a linear-inequality domain (own Fourier-Motzkin emptiness test), one state per CFG path",
     "C18": "abstract interpretation of the reservation helper's MIR in a linear-inequality domain (own Fourier-Motzkin emptiness test, one state per CFG path) under the "
            "hypotheses empty + sole owner + request <= allocation size: all paths to allocation calls / `return false` must be empty; "
-           "path-sensitive linear-token accounting of references (A2); who-may-allocate reachability over the resolved call graph, cut at the reservation helper (A22)",
+           "path-sensitive linear-token accounting of references (A2); who-may-allocate reachability over the resolved call graph, cut at the reservation helper (A22); replacement-event reachability for the narrowing methods (A25)",
     "C03": "path-sensitive linear-token accounting over MIR (acyclic path enumeration with constant folding and tag-feasibility pruning, interprocedural event summaries)",
     "C02": "precondition extraction from debug_assert!s of unsafe helpers + dominating-guard implication at every safe call site; shape rules for raw slices/writes; arithmetic taint; linear-inequality entailments over path end states (A16 A18); upper-bound (bit-field) analysis of the tagged data word (A17); effect analysis of debug-only regions",
     "C13": "reachability from state-write sites to argument-dependent panic sites over MIR CFGs with interprocedural summaries; dominating-guard implication; arithmetic taint; linear-inequality entailments (shrink-or-fill for set_len/advance_mut; callee panic sites judged in inlined views)",
